@@ -30,6 +30,15 @@ CLAIMED = {
  "C10": dict(level="fault_enumeration", technique="deterministic simulation: counting ResponseWriter + (handled, err) trichotomy monitor over the request product and over a complete single-fault sweep of the side-effect corpus",
    text="A recording ResponseWriter counts header and body writes (separating those the application makes inside Authenticate*); each finished entry call must be in exactly one of the three documented end states, with the status table of the statement checked by an independent request classifier; the corpus of all side-effect paths is swept with every single seam-call fault.",
    note="Single-fault sweep is complete for the corpus; the request product is sampled. 'Usable id' resolved as stated in assumptions.", design="5/C10"),
+ "C04": dict(level="exploration", technique="deterministic simulation: remote-peer workload over the simulated network with fetch faults; executable model of the default inbox side effects applied to the database snapshot and compared with the real final database, wire and callback log",
+   text="One inbox POST per run goes through the real PostInbox path (auth, block check, side effects, forwarding) of a simulated server; a reference model written from the statement computes the expected final documents, collection changes, automatic Accept/Reject and callback invocations from the pre-run database snapshot and the fault plan; every document of the server is compared afterwards, so any extra write (data not owned, default effect despite an 'other' callback) is seen.",
+   note="Seeded sampling of activities and configurations. followers/following compared as sets, Add/Remove as multisets, likes/shares as sequences.", design="5/C04"),
+ "C06": dict(level="exploration", technique="deterministic simulation with a Byzantine peer: well-formed but unauthorised activities (foreign-host objects, forged Accepts, Undo of others' activities, embedded blocked actors), authority model as oracle, database diff on rejection",
+   text="Same engine as C04 with a workload of unauthorised activities: host combinations for Update/Delete, Accept/Follow graphs, Undo actor sets, blocked actors as IRIs or embedded objects. Where the model says unauthorised the request must not be answered 200 and the database must be unchanged apart from the inbox entry; the Blocked callback's argument and its position before the first side effect are checked on the event log.",
+   note="One-directional (applied => authorised). Letter-case-only host differences accepted either way.", design="5/C06"),
+ "C16": dict(level="exploration", technique="deterministic simulation: client workload with per-server simulated clock (base, skew, zone) as the time seam; model of the documented client side effects vs database delta, wire and status",
+   text="Client Update/Delete/Add/Remove/Like/Block posts run through the real outbox path; the oracle compares member-by-member merge results, Tombstones (incl. the deleted time against the exact clock value the simulated clock handed to that request), target and liked collections in order, Block's absence from the wire, and the 400-and-no-change outcome for missing members.",
+   note="Input-dominated; the simulation contributes the clock seam, the alias-free database and the wire. Sampling.", design="5/C16"),
  "C08": dict(level="exploration", technique="deterministic simulation: seeded schedule search (random walk, sticky, PCT) over 2-5 concurrent requests at Database/Transport/callback granularity; sequential-equivalence oracle, porcupine linearizability of inbox/outbox histories, deadlock detection by wait-for cycles",
    text="Real Actor methods run as tasks under a seeded scheduler that owns every interleaving at seam granularity, with nested deliveries between two simulated servers. Each concurrent run is compared, collection by collection, with the same requests executed sequentially in every order; inbox/outbox post/read histories are checked with porcupine; duplicate deliveries are counted; a fault class checks that everything still completes when one call fails.",
    note="Sampling of schedules (seeded), not exhaustive enumeration. Assumes SimDB's per-id mutual exclusion and copy semantics. Sequential reference is the library itself run one request at a time.",
